@@ -160,6 +160,7 @@ def run(tier, rnd, out):
     if corpus: run_stream(out, "corpus", corpus)
     run_stream(out, "requests", [gen_case(rnd) for _ in range(700 if tier == "quick" else 12000)])
     run_stream(out, "empty-reply-at-a-step", [gen_case(rnd, fault=True) for _ in range(150 if tier == "quick" else 4000)])
+    run_stream(out, "requests-to-a-slow-device", world.with_delays(rnd, [gen_case(rnd, fault=(k % 4 == 0)) for k in range(80 if tier == "quick" else 2000)]))
     grid = [gen_case(rnd, fault=True, sub=sub, sep=sep, upd=upd, step=step) for sub in range(32) for sep in (False, True) for upd in (False, True)
             for step in range(4) for _ in range(1 if tier == "quick" else 6)]
     run_stream(out, "every-request-subset-x-remote-kind-x-faulted-step", grid)
